@@ -14,11 +14,9 @@ def cBracket (b : Bracket) : Option ReAtom :=
   if b.items = [] then none
   else if !b.multi then (cItems b.items).map (fun ci => .one (.cls { neg := b.complement, items := ci }))
   else if !b.complement then (cAlts b.items).map .alt
-  else
-    match cItems (b.items.filter (fun it => !it.multi)) with
-    | some [] => none
-    | some ci => some (.one (.cls { neg := true, items := ci }))
-    | none => none
+  else if b.items.all BracketItem.multi then some .any
+  else (cItems (b.items.filter (fun it => !it.multi))).map
+    (fun ci => .one (.cls { neg := true, items := ci }))
 
 def cAtom : Atom → Option ReAtom
   | .char c => some (.one (.lit c))
@@ -65,7 +63,8 @@ theorem bracket_fmt_cases {b : Bracket} {x : List Char} (h : b.fmt = .ok x) :
         x = '[' :: ((if b.complement then ['^'] else []) ++ a ++ ']' :: [])) ∨
      (b.multi = true ∧ b.complement = false ∧ ∃ a, fmtAltItems b.items = .ok a ∧
         x = '(' :: '?' :: ':' :: (a ++ [')'])) ∨
-     (b.multi = true ∧ b.complement = true ∧ ∃ a,
+     (b.multi = true ∧ b.complement = true ∧ b.items.all BracketItem.multi = true ∧ x = ['.']) ∨
+     (b.multi = true ∧ b.complement = true ∧ b.items.all BracketItem.multi = false ∧ ∃ a,
         fmtItems (b.items.filter (fun it => !it.multi)) = .ok a ∧ x = '[' :: '^' :: (a ++ [']']))) := by
   unfold Bracket.fmt at h
   split at h
@@ -90,10 +89,15 @@ theorem bracket_fmt_cases {b : Bracket} {x : List Char} (h : b.fmt = .ok x) :
           exact Or.inr (Or.inl ⟨hm', by simpa using hc, a, ha, by rw [← h]⟩)
       · rename_i hc
         split at h
-        · simp at h
-        · rename_i a ha
+        · rename_i hall
           simp at h
-          exact Or.inr (Or.inr ⟨hm', by simpa using hc, a, ha, by rw [← h]⟩)
+          exact Or.inr (Or.inr (Or.inl ⟨hm', by simpa using hc, hall, h.symm⟩))
+        · rename_i hall
+          split at h
+          · simp at h
+          · rename_i a ha
+            simp at h
+            exact Or.inr (Or.inr (Or.inr ⟨hm', by simpa using hc, by simpa using hall, a, ha, by rw [← h]⟩))
 
 /-- the first character of an emitted atom is never a raw `*` -/
 theorem atom_fmt_head {a : Atom} {x : List Char} (h : a.fmt = .ok x) (r : List Char) :
@@ -110,10 +114,11 @@ theorem atom_fmt_head {a : Atom} {x : List Char} (h : a.fmt = .ok x) (r : List C
   | anyString => simp [Atom.fmt] at h; subst h; exact ⟨'.', _, rfl, by decide⟩
   | bracket b =>
     simp only [Atom.fmt] at h
-    obtain ⟨_, h1 | h2 | h3⟩ := bracket_fmt_cases h
+    obtain ⟨_, h1 | h2 | h3 | h4⟩ := bracket_fmt_cases h
     · obtain ⟨_, a, _, rfl⟩ := h1; exact ⟨'[', _, rfl, by decide⟩
     · obtain ⟨_, _, a, _, rfl⟩ := h2; exact ⟨'(', _, rfl, by decide⟩
-    · obtain ⟨_, _, a, _, rfl⟩ := h3; exact ⟨'[', _, rfl, by decide⟩
+    · obtain ⟨_, _, _, rfl⟩ := h3; exact ⟨'.', _, rfl, by decide⟩
+    · obtain ⟨_, _, _, a, _, rfl⟩ := h4; exact ⟨'[', _, rfl, by decide⟩
 
 theorem atoms_fmt_head {ast : List Atom} {x : List Char} (h : fmtAtoms ast = .ok x) (tail : List Char)
     (ht : tail.head? ≠ some '*') : (x ++ tail).head? ≠ some '*' := by
@@ -145,7 +150,7 @@ theorem atom_emit {a : Atom} {x : List Char} (h : a.fmt = .ok x) (r : List Char)
   | anyString => simp [Atom.fmt] at h; subst h; simp [parseTop, cAtom]
   | bracket b =>
     simp only [Atom.fmt] at h
-    obtain ⟨hne, h1 | h2 | h3⟩ := bracket_fmt_cases h
+    obtain ⟨hne, h1 | h2 | h3 | h4⟩ := bracket_fmt_cases h
     · obtain ⟨hm, a, ha, rfl⟩ := h1
       have hmi : ∀ it ∈ b.items, it.multi = false := by
         intro it hi
@@ -173,32 +178,34 @@ theorem atom_emit {a : Atom} {x : List Char} (h : a.fmt = .ok x) (r : List Char)
       rw [parseBranches_emit b.items hne a ha r fuel hfl]
       simp only [cAtom, cBracket, hne, if_false, hm, hc]
       cases cAlts b.items <;> simp
-    · obtain ⟨hm, hc, a, ha, rfl⟩ := h3
+    · obtain ⟨hm, hc, hall, rfl⟩ := h3
+      simp [parseTop, hr, cAtom, cBracket, hne, hm, hc, hall]
+    · obtain ⟨hm, hc, hall, a, ha, rfl⟩ := h4
       have hmi := filter_not_multi b.items
       have hl := fmtItems_length hmi ha
       have e : ('[' :: '^' :: (a ++ [']'])) ++ r = '[' :: '^' :: (a ++ ']' :: r) := by simp
       have hfl : (b.items.filter (fun it => !it.multi)).length < fuel := by
         rw [e] at hfuel; simp at hfuel; omega
+      have hf : b.items.filter (fun it => !it.multi) ≠ [] := by
+        intro hnil
+        have : b.items.all BracketItem.multi = true := by
+          rw [List.all_eq_true]
+          intro it hi
+          by_cases hm1 : it.multi = true
+          · exact hm1
+          · have : it ∈ b.items.filter (fun it => !it.multi) := by
+              rw [List.mem_filter]; exact ⟨hi, by simpa using hm1⟩
+            rw [hnil] at this; simp at this
+        rw [this] at hall; simp at hall
       rw [e]
       simp only [parseTop]
       simp only [show ('[' : Char) ≠ '\\' by decide, show ('[' : Char) ≠ '.' by decide, if_false, if_true]
-      simp only [cAtom, cBracket, hne, if_false, hm, hc]
-      by_cases hf : b.items.filter (fun it => !it.multi) = []
-      · rw [hf] at ha ⊢
-        simp [fmtItems] at ha; subst ha
-        obtain ⟨f, rfl⟩ : ∃ f, fuel = f + 1 := ⟨fuel - 1, by omega⟩
-        simp [parseClass, classItems_close, cItems]
-      · have := parseClass_emit true _ a hmi ha hf r fuel hfl
-        simp only [if_true] at this
-        have e2 : '^' :: (a ++ ']' :: r) = ['^'] ++ a ++ ']' :: r := by simp
-        rw [e2, this]
-        cases hci : cItems (b.items.filter (fun it => !it.multi)) with
-        | none => simp
-        | some ci =>
-          have := cItems_ne_nil hf hci
-          cases ci with
-          | nil => exact absurd rfl this
-          | cons c0 cr => simp
+      simp only [cAtom, cBracket, hne, if_false, hm, hc, hall]
+      have := parseClass_emit true _ a hmi ha hf r fuel hfl
+      simp only [if_true] at this
+      have e2 : '^' :: (a ++ ']' :: r) = ['^'] ++ a ++ ']' :: r := by simp
+      rw [e2, this]
+      cases hci : cItems (b.items.filter (fun it => !it.multi)) <;> simp
 
 /-! ### all atoms -/
 
@@ -384,17 +391,33 @@ theorem bracket_sem {b : Bracket} {ra : ReAtom} (h : cBracket b = some ra) (g : 
         rename_i hc
         have hc' : b.complement = true := by simpa using hc
         split at h
-        · simp at h
-        · rename_i ci hnil hci
+        · -- all items are multi-character: `.`
+          rename_i hall
           simp at h
           subst h
+          have hnone : ∀ c, b.items.any (itemHas · c) = false := by
+            intro c
+            rw [List.any_eq_false]
+            intro it hi
+            have : it.multi = true := by
+              have h' := hall
+              rw [List.all_eq_true] at h'
+              exact h' it hi
+            simp [itemHas_of_multi this c]
           cases s with
           | nil => simp [matchHere, bracketRests, hc']
-          | cons c t =>
-            simp only [matchHere, bracketRests, Simple.mem, Cls.mem, hc', cItems_mem hci c,
-              any_filter_not_multi]
-            cases hx : (b.items.any (itemHas · c) != true) <;> simp
-        · simp at h
+          | cons c t => simp [matchHere, bracketRests, hc', hnone c]
+        · cases hci : cItems (b.items.filter (fun it => !it.multi)) with
+          | none => simp [hci] at h
+          | some ci =>
+            simp [hci] at h
+            subst h
+            cases s with
+            | nil => simp [matchHere, bracketRests, hc']
+            | cons c t =>
+              simp only [matchHere, bracketRests, Simple.mem, Cls.mem, hc', cItems_mem hci c,
+                any_filter_not_multi]
+              cases hx : (b.items.any (itemHas · c) != true) <;> simp
 
 theorem matchHere_glob (g : Bool) (n : Nat) (atoms : List Atom) :
     ∀ res, cAtoms atoms = some res →
